@@ -363,10 +363,12 @@ class Analyzer:
                 return self.sym(["C", pl])
         return self.sym(op)
 
-    def facts_at(self, bi):
-        """all facts from switch edges that dominate block bi"""
-        if bi in self._facts:
-            return self._facts[bi]
+    def facts_at(self, bi, stale_ok=False):
+        """all facts from switch edges that dominate block bi. With stale_ok the facts are the tests that were made on the way (used to describe the
+        guards an audit relies on); without it, facts about something that may have been written between the test and the site are dropped
+        (used by the discharge rules)."""
+        if (bi, stale_ok) in self._facts:
+            return self._facts[(bi, stale_ok)]
         ef = self.edge_facts()
         out = []
         for (s, t), fs in ef.items():
@@ -378,8 +380,141 @@ class Analyzer:
                     term = self.blocks[s]["t"]
                     n_edges = sum(1 for _, tb in term[2] if tb == t) + (1 if term[3] == t else 0)
                     if n_edges == 1:
-                        out.extend(fs)
-        self._facts[bi] = out
+                        mut = self.mutated_between(t, bi)
+                        out.extend(f for f in fs if stale_ok or not self.is_stale(f, mut))
+        self._facts[(bi, stale_ok)] = out
+        return out
+
+    # ------------------------------------------------------------------ staleness of facts
+    def base_of(self, r):
+        while isinstance(r, tuple):
+            r = r[0]
+        return r
+
+    def sym_bases(self, x, out):
+        if not isinstance(x, tuple) or not x:
+            return
+        if x[0] in ("l", "count") and isinstance(x[1], int):
+            out.add(x[1])
+            out.add(self.base_of(self.root(x[1])))
+        elif x[0] == "p":
+            try:
+                pl = json.loads(x[1])
+                if isinstance(pl, list) and pl and isinstance(pl[0], int):
+                    out.add(pl[0])
+                    out.add(self.base_of(self.root(pl[0])))
+            except ValueError:
+                m = re.match(r"(\d+)", x[1])
+                if m:
+                    out.add(int(m.group(1)))
+        elif x[0] == "len":
+            out.add(self.base_of(x[1]))
+        elif x[0] == "add":
+            self.sym_bases(x[1], out)
+
+    def fact_bases(self, f):
+        """(bases whose any mutation voids the fact, bases whose resizing voids the fact)"""
+        anyb, lenb = set(), set()
+        if f[0] == "cmp":
+            for x in (f[2], f[3]):
+                if isinstance(x, tuple) and x and x[0] == "len":
+                    lenb.add(self.base_of(x[1]))
+                elif isinstance(x, tuple) and x and x[0] == "add" and isinstance(x[1], tuple) and x[1] and x[1][0] == "len":
+                    lenb.add(self.base_of(x[1][1]))
+                else:
+                    self.sym_bases(x, anyb)
+        elif f[0] in ("len_eq", "len_gt", "len_notin"):
+            lenb.add(self.base_of(f[1]))
+        elif f[0] in ("variant", "disc_eq", "disc_notin"):
+            anyb.add(self.base_of(f[1]))
+        elif f[0] == "call":
+            for r in f[3]:
+                if not (isinstance(r, tuple) and r and r[0] == "k"):
+                    anyb.add(self.base_of(r))
+        anyb.discard(None)
+        lenb.discard(None)
+        return anyb, lenb
+
+    def is_stale(self, f, mut):
+        anyb, lenb = self.fact_bases(f)
+        for b in anyb:
+            if b in mut:
+                return True
+        for b in lenb:
+            if mut.get(b) in ("assign", "any"):
+                return True
+        return False
+
+    NON_RESIZING = re.compile(r"::(iter_mut|index_mut|get_mut|get_unchecked_mut|sort\w*|reverse|swap|last_mut|first_mut|as_mut_slice|as_mut|deref_mut|split_at_mut|fill|copy_from_slice|clone_from_slice|borrow_mut|set_entry|make_ascii_\w+)$")
+
+    def mutated_between(self, t, bi):
+        """base locals that may be written on a path from block t (entered through the fact's edge) to the site in block bi without re-entering t,
+        with the kind of write: 'assign' (a statement assigns the place), 'any' (a `&mut` borrow of it is handed to a call that may do anything),
+        'elements' (handed to a call known not to change the length). A fact established on the edge may be stale at the site
+        (`while i < n { i += 2; v[i] }`)."""
+        key = (t, bi)
+        cache = self.__dict__.setdefault("_mut_cache", {})
+        if key in cache:
+            return cache[key]
+        succ = lambda x: [y for y in mirutil.normal_successors(self.blocks[x]["t"]) if y != t]
+        fwd, work = {t}, [t]
+        while work:
+            x = work.pop()
+            for y in succ(x):
+                if y not in fwd:
+                    fwd.add(y)
+                    work.append(y)
+        bwd, work = {bi}, [bi]
+        while work:
+            x = work.pop()
+            if x == t:
+                continue
+            for y in self.preds.get(x, []):
+                if y not in bwd and y in fwd:
+                    bwd.add(y)
+                    work.append(y)
+        mids = fwd & bwd
+        out = {}
+
+        def note(b, kind):
+            if b is None:
+                return
+            rank = {"elements": 0, "any": 1, "assign": 2}
+            if b not in out or rank[kind] > rank[out[b]]:
+                out[b] = kind
+        mutrefs = {}
+        for x in mids:
+            for st in self.blocks[x]["s"]:
+                if st[0] == "A" and st[2][0] in ("Ref", "RawPtr") and st[2][1] == "mut" and len(st[1]) == 1:
+                    mutrefs[st[1][0]] = self.base_of(self.root(st[2][2][0]))
+        for x in mids:
+            bl = self.blocks[x]
+            term = bl["t"]
+            for st in bl["s"]:
+                if st[0] != "A":
+                    continue
+                d = st[1]
+                if len(d) == 1:
+                    # a plain (re)definition of a local matters only for locals with several definitions (single definitions are followed symbolically)
+                    if len(self.B.defs.get(d[0], [])) > 1:
+                        note(d[0], "assign")
+                else:
+                    note(d[0], "assign")
+                    note(self.base_of(self.root(d[0])), "assign")
+            if term[0] == "call" and x != bi:
+                d = term[1].get("dest")
+                if d:
+                    if len(d) > 1 or len(self.B.defs.get(d[0], [])) > 1:
+                        note(d[0], "assign")
+                        if len(d) > 1:
+                            note(self.base_of(self.root(d[0])), "assign")
+                p = term[1]["f"].get("p") or ""
+                for a in term[1].get("args", []):
+                    if a[0] in ("C", "M") and a[1][0] in mutrefs:
+                        note(mutrefs[a[1][0]], "elements" if self.NON_RESIZING.search(p) else "any")
+                    elif a[0] in ("C", "M") and "&mut" in self.B.local_ty(a[1][0]):
+                        note(self.base_of(self.root(a[1][0])), "elements" if self.NON_RESIZING.search(p) else "any")
+        cache[key] = out
         return out
 
     # ------------------------------------------------------------------ derived knowledge
@@ -625,7 +760,7 @@ def relevant_guards(A, s):
             return True
         return any(isinstance(y, tuple) and y and y[0] == "add" and y[1] == x for y in syms)
     out = set()
-    for f in A.facts_at(s.block):
+    for f in A.facts_at(s.block, stale_ok=True):
         if f[0] == "cmp" and (mentions(f[2]) or mentions(f[3])) and not (f[2][0] == "c" and f[3][0] == "c"):
             out.add(guard_sig(f))
         elif f[0] in ("len_eq", "len_gt", "len_notin", "variant") and f[1] in roots:
